@@ -7,7 +7,7 @@ import warnings
 from hypothesis import strategies as st
 
 from .. import convs, refpdu, simnet
-from ..common import Violation, HarnessError, hyp_search, parallel, lib_frame
+from ..common import Violation, HarnessError, hyp_search, parallel, lib_frame, quiet_warnings
 
 LEVEL = 'exploration'
 
@@ -282,7 +282,7 @@ def run_race(ctx, name, role, steps):
 
 
 def run_conv(ctx, job):
-    warnings.simplefilter('ignore')
+    quiet_warnings()
     name = job['conv']
     role, steps = convs.corpus()[name]
     base = observe(role, steps, None)
@@ -463,12 +463,12 @@ def run_generated(ctx, n):
 
 
 def shard_generated(ctx, job):
-    warnings.simplefilter('ignore')
+    quiet_warnings()
     run_generated(ctx, job['n'])
 
 
 def run(ctx):
-    warnings.simplefilter('ignore')
+    quiet_warnings()
     corpus = convs.corpus()
     ctx.rule = ('for each of %d conversations (both roles): whole-burst, one-byte dribble, every single cut '
                 'offset, pairs of cut offsets, Hypothesis k-cuts (k<=8); another association carried by a second provider of the same process between the two halves of each PDU; the first bytes of a PDU arriving before the local user action that precedes it; a peer PDU cut at every offset while it races a multi-fragment message the local user is sending; the read size of the provider set to exactly the length (a half, a third) of each PDU of the conversation; Hypothesis-generated conversations (the random walks of C05) re-cut at random offsets; two long pipelined streams (> 64 KiB, incl. 30 kB PDUs) in chunks of 100..65536 bytes; x first segment already waiting or not x '
@@ -495,7 +495,7 @@ def run(ctx):
 
 
 def replay(case):
-    warnings.simplefilter('ignore')
+    quiet_warnings()
     if case.get('generated'):
         base = observe_script(case['role'], history_script(case['history'], None, False))
         got = observe_script(case['role'], history_script(case['history'], case['cuts'], case['b2b']))
